@@ -85,7 +85,7 @@ def headers(i1: int, i2: int, i3: int, v1: str, v2: str, v3: str) -> bool:
     pre: okval(v1) and okval(v2) and okval(v3)
     post: __return__
     """
-    idx = [pick(i1, 0, 5), pick(i2, 0, 5), pick(i3, 0, 5)][:CASE["k"]]
+    idx = [pick(i, 0, 5) for i in (i1, i2, i3)[:CASE["k"]]]
     vals = [v1, v2, v3][:CASE["k"]]
     hs = [(NAMES[idx[k]], vals[k]) for k in range(len(idx))]
     r = mk_req(headers=hs)
@@ -112,7 +112,7 @@ def headers(i1: int, i2: int, i3: int, v1: str, v2: str, v3: str) -> bool:
 # ---- 3. target forms ----------------------------------------------------------------------------------------------------
 REP = ["a", "/", "?", "%", "4", "1", "F", "g", ":", "@", ";", ".", "\xe9", "*", "=", "&", "\t", "\r", "\n", "\x01",
        "\x7f", "[", "+", "\\"]
-FORMS = ["/", "//", "http://h/", "/p/", "*", "\x01/", " /"[1:] + "\x1f"]
+FORMS = ["/", "//", "http://h/", "/p/", "*", "\x01/", "/\x1f"]
 
 
 def build(ci):
@@ -129,7 +129,7 @@ def target(c1: int, c2: int, c3: int) -> bool:
     post: __return__
     """
     n = CASE["n"]
-    ci = [pick(c1, 0, len(REP) - 1), pick(c2, 0, len(REP) - 1), pick(c3, 0, len(REP) - 1)][:n]
+    ci = [pick(c, 0, len(REP) - 1) for c in (c1, c2, c3)[:n]]
     t = FORMS[CASE["form"]] + build(ci)
     if FORMS[CASE["form"]] == "*":
         t = "*"                                       # asterisk-form stands alone
@@ -158,7 +158,7 @@ def target_twin(c1: int, c2: int, c3: int) -> bool:
     post: __return__
     """
     n = CASE["n"]
-    ci = [pick(c1, 0, len(REP) - 1), pick(c2, 0, len(REP) - 1), pick(c3, 0, len(REP) - 1)][:n]
+    ci = [pick(c, 0, len(REP) - 1) for c in (c1, c2, c3)[:n]]
     t = FORMS[CASE["form"]] + build(ci)
     r = mk_req()
     try:
